@@ -12,7 +12,7 @@ RULE = ("cases = generated flat constraint programs (1-4 scalar/enum fields of w
         "programs are judged against the exhaustively enumerated reference solution set, wide ones against a hidden "
         "anchored assignment; every returned state is evaluated by the reference semantics, and pinned probes "
         "(members, single-violation witnesses per statement, non-members, bit-flipped v*) check both directions; a third "
-        "family takes list programs (C04's generator without random-size lists, every foreach carrying an if/else-if/else "
+        "family takes list programs (C04's generator without random-size lists, most foreach statements carrying an if/else-if/else "
         "chain whose conditions mix non-random scalars, the foreach index, random scalars and elements - the conditions "
         "the library folds to constants before solving) and judges SolveFailure / return / other exception against the "
         "enumerated solution set over scalar and element values; a fourth family makes the outer call after pre_randomize has "
@@ -42,7 +42,7 @@ C02_KINDS = ("spurious_solve_failure", "returned_on_unsat", "library_exception")
 
 @hyp.composite
 def foreach_cases(d):
-    case = c04._cases(d, p_fold=100, no_randsz=True)
+    case = c04._cases(d, p_fold=60, no_randsz=True)
     case["mode"] = "foreach"
     return case
 
